@@ -321,6 +321,6 @@ def subchecks(tier):
             describe="scores differing by 2^-40 (exact sums): improvements far below any relative tolerance"),
         Sub("factory-history", "hyp", check_history, strategy=history_case, examples=16000 if q else 300000, shrink_budget=1500,
             describe="one factory instance reused for 2-4 position lists"),
-        Sub("small-atheris", "fuzz", check, strategy=small_random_case, fuzz_runs=2000 if q else 150000,
+        Sub("small-atheris", "fuzz", check, strategy=small_random_case, fuzz_runs=2000 if q else 150000, time_budget_s=300.0,
             describe="coverage-guided (atheris/libFuzzer) search over the bytes behind the small-random generator, same oracle"),
     ]
